@@ -317,7 +317,7 @@ func ruleR14c(h *H) {
 				return
 			}
 			guarded := compositeFieldValue(al, "ExpectedVersionId") != nil
-			h.Verdict(guarded, rule, "unconditional delete of a listed key in "+ir.FuncName(fn), h.pos(in), "the delete carries a condition evaluated inside apply",
+			h.Verdict(guarded, rule, "unconditional delete of a listed key in the session cleanup", h.pos(in), "the delete carries a condition evaluated inside apply",
 				"the keys owned by the session are listed outside the batch (ListBlock) and deleted unconditionally: a key that another writer took over between the list and the write is destroyed")
 		})
 	}
